@@ -243,6 +243,20 @@ def extra(ctx, obl, cases, obs):
                     cm.violation(ctx, "failing-input", {"what": "sam toMultiAlign --start %d --end %d / legacy --trimstart %d --trimend %d / columns of the untrimmed output disagree" % (s, e, s - 1, e),
                                                         "sam": open(samp).read(), "new": new.decode(), "legacy": old.decode(), "expected": exp.decode()})
                     return
+        # ... each bound alone: --start s = legacy --trimstart s-1, --end e = legacy --trimend e, with and without --pad / --trim
+        for k in range(1, L + 1):
+            for extra_ in ([], ["--pad"], ["--trim"]):
+                new_extra = [x for x in extra_ if x != "--trim"]
+                for new_a, old_a, exp_f in ((["--start", str(k)], ["--trimstart", str(k - 1)], lambda l: l[k - 1:]),
+                                            (["--end", str(k)], ["--trimend", str(k)], lambda l: l[:k])):
+                    c1, new = toma(new_a + new_extra)
+                    c2, old = toma(old_a + extra_)
+                    runs += 2
+                    exp = "".join(l + "\n" if l.startswith(">") else exp_f(l) + "\n" for l in full.decode().split("\n") if l).encode()
+                    if c1 != "ok" or c2 != "ok" or new != old or (not new_extra and new != exp):
+                        cm.violation(ctx, "failing-input", {"what": "sam toMultiAlign %s / legacy %s / the columns of the untrimmed output disagree" % (" ".join(new_a + new_extra), " ".join(old_a + extra_)),
+                                                            "sam": open(samp).read(), "new": new.decode(), "legacy": old.decode(), "expected_without_pad": exp.decode()})
+                        return
         # (b) variants: stdin (reference first) equals file
         for _ in range(6 if ctx.tier == "quick" else 40):
             suffix = rng.choice(["gb", "gff"])
